@@ -42,6 +42,13 @@ static void spin_pause(unsigned* k)
     nanosleep(&ts, 0);
 }
 
+// The controller thread itself only issues writes smaller than the capacity while every reader is
+// drained (window-mode prefix): such a write never needs to sleep (C03: "resumes once every
+// registered reader has drained"; nobody else would ever wake it).
+static int g_ctrl_write_fits;
+static size_t g_ctrl_write_n;
+static void ctrl_would_sleep(void);
+
 void __wrap_condition_variable_wait(struct condition_variable* cv, struct lock* lk)
 {
     if (t_role == ROLE_WRITER && cv == &g_ch.notify_space_available) {
@@ -58,6 +65,8 @@ void __wrap_condition_variable_wait(struct condition_variable* cv, struct lock* 
         atomic_fetch_add(&g_wakeups, 1);
         return;
     }
+    if (t_role == ROLE_CTRL && g_ctrl_write_fits && cv == &g_ch.notify_space_available)
+        ctrl_would_sleep(); // does not return
     __real_condition_variable_wait(cv, lk);
 }
 
@@ -113,6 +122,12 @@ static void violation(const char* props, const char* key, const char* fmt, ...)
     vjson_str(stdout, g_log.p ? g_log.p : "");
     printf("}\n");
     fflush(stdout);
+}
+
+static void ctrl_would_sleep(void)
+{
+    violation("C03", "sleeps-while-drained", "write_map(%zu) on the controlling thread goes to sleep although every reader is drained", g_ctrl_write_n);
+    _exit(4); // the channel lock is held and nobody will ever notify: the V record is the result
 }
 
 // ----- reference model ------------------------------------------------------------------
@@ -798,7 +813,9 @@ static void run_window_case(uint64_t seed, unsigned long icase)
         if (all_drained()) {
             size_t n = (size_t)vrng_range(&g, 1, cap - 1);
             vbuf_printf(&g_log, "WM%zu ", n);
+            g_ctrl_write_fits = 1; g_ctrl_write_n = n;
             void* p = channel_write_map(&g_ch, n);
+            g_ctrl_write_fits = 0;
             on_write_mapped(p, n);
             if (g_w.mapped) step_write_commit(0);
         } else {
@@ -813,7 +830,9 @@ static void run_window_case(uint64_t seed, unsigned long icase)
     if (g_case_violated) { channel_release(&g_ch); ++C.cases; return; }
     size_t n1 = (size_t)vrng_range(&g, cap / 2 + 1, cap - 1);
     vbuf_printf(&g_log, "WM%zu ", n1);
+    g_ctrl_write_fits = all_drained(); g_ctrl_write_n = n1;
     void* p = channel_write_map(&g_ch, n1);
+    g_ctrl_write_fits = 0;
     on_write_mapped(p, n1);
     if (g_w.mapped) step_write_commit(0);
     // one reader (the victim) maps the data; others may drain fully
